@@ -1,7 +1,8 @@
 CONSTANTS
   Dev = {}
   Alphabet <- AlphaNum
-  MaxLen = 7
+  MaxLen = 8
+  Prune = TRUE
   DepthProbe = {0, 256}
 INIT Init
 NEXT Next
